@@ -1,3 +1,83 @@
 package main
 
-func dispatch5(mode string, args []string) bool { return false }
+import (
+	"encoding/json"
+	"fmt"
+	"os"
+	"reflect"
+	"strings"
+
+	"verif/harness/vapp"
+)
+
+func dispatch5(mode string, args []string) bool {
+	switch mode {
+	case "diverge":
+		divergeMode(args)
+	default:
+		return dispatch6(mode, args)
+	}
+	return true
+}
+
+// divergeMode: diagnosis of a disagreement found by the replica checks: re-run the reference
+// and one twin with state projection and print where the projected states first differ.
+// usage: vdrive diverge --scenario file  <restart spec like h12:commit,h3:begin | nocheck>
+func divergeMode(args []string) {
+	c, fs := flags("diverge", args)
+	given := loadScenarios(c)
+	sc := given[0]
+	ref, err := vapp.Materialise(sc, vapp.RunOpts{Identity: "v1", WantState: true})
+	if err != nil {
+		fmt.Println(err)
+		os.Exit(1)
+	}
+	o := vapp.RunOpts{Identity: "v1", WantState: true}
+	spec := fs.Arg(0)
+	if spec == "nocheck" {
+		o.NoCheck = true
+	} else {
+		o.Restart = map[int64]string{}
+		for _, p := range strings.Split(spec, ",") {
+			var h int64
+			var pt string
+			q := strings.SplitN(strings.TrimPrefix(p, "h"), ":", 2)
+			fmt.Sscan(q[0], &h)
+			pt = q[1]
+			o.Restart[h] = pt
+		}
+		dir, _ := os.MkdirTemp("", "vdiv")
+		defer os.RemoveAll(dir)
+		o.Dir = dir
+	}
+	tw, err := vapp.Replay(sc, ref, o)
+	if err != nil {
+		fmt.Println(err)
+		os.Exit(1)
+	}
+	for i := range ref.Blocks {
+		if i >= len(tw.Blocks) {
+			break
+		}
+		a, b := ref.Blocks[i], tw.Blocks[i]
+		if a.Hash == b.Hash {
+			continue
+		}
+		fmt.Printf("first divergence at block %d: %s vs %s\n", a.H, a.Hash, b.Hash)
+		ja, _ := json.Marshal(a.State)
+		jb, _ := json.Marshal(b.State)
+		var ma, mb map[string]interface{}
+		_ = json.Unmarshal(ja, &ma)
+		_ = json.Unmarshal(jb, &mb)
+		for k := range ma {
+			if !reflect.DeepEqual(ma[k], mb[k]) {
+				x, _ := json.Marshal(ma[k])
+				y, _ := json.Marshal(mb[k])
+				fmt.Printf("  %s:\n    ref : %s\n    twin: %s\n", k, x, y)
+			}
+		}
+		fmt.Printf("  events ref : %v\n  events twin: %v\n", a.Events, b.Events)
+		return
+	}
+	fmt.Println("no divergence")
+}
